@@ -66,9 +66,20 @@ pub fn main(tier: &str, seed: u64, n_override: Option<u64>) {
                     if ((cm[3] - pm[3]) - (cm[5] - pm[5])).abs() > 1e-9 { direct = "fail"; class = "C05.recovered_j4_j6_move_differently".into(); }
                 }
             }
-            // is another branch singular as well (excluded by the property)?
-            let plain = k.inverse(&pose);
-            let other_singular = plain.iter().filter(|s| r.to_model(s)[4].sin().abs() < 1e-3).count() > 2;
+            // is a second IK branch (another arm configuration) simultaneously singular?  (excluded by the property's quantifier)
+            // The solver looks at the pose and at its three 0.125 um shifts; a branch counts when its model J5 is inside the
+            // detection band (with a 2x safety factor) at any of them and its J1..J3 are not those of the previous joints.
+            let bare = r.bare();
+            let mut other_singular = false;
+            for d in 0..4 {
+                for s in H::inverse_intern(&bare, &shifted(&pose, d)) {
+                    let m = r.to_model(&s);
+                    let band = { let a = m[4].rem_euclid(std::f64::consts::PI); a.min(std::f64::consts::PI - a) < 2.0 * H::SINGULARITY_ANGLE_THR };
+                    let same_arm = (0..3).all(|i| ang_diff(s[i], j[i]) < 1e-3);
+                    if band && !same_arm { other_singular = true; }
+                }
+            }
+            let _ = H::take_trace();
             if well && !other_singular && direct == "ok" {
                 if sols.is_empty() || !joints_close(&sols[0], &j, 2e-5) { direct = "fail"; class = "C05.singular_continuation_first_is_not_previous".into(); }
             }
